@@ -97,12 +97,14 @@ Proof.
 Qed.
 
 Lemma d_tombstone_key_parses c k o :
+  d_cares c o = true ->
   no_char colon (get_api_version o) = true -> no_char colon (get_kind o) = true ->
   no_char colon (get_ns o) = true ->
   exists q, d_on_parent_event c (EDeleteTombstone k o) = [q] /\
             split_parent_queue_key q = Some (get_api_version o, get_kind o, get_ns o, get_name o).
 Proof.
-  intros Ha Hk Hn. exists (d_key_of o). split; [reflexivity|now apply d_key_roundtrip].
+  intros Hc Ha Hk Hn. exists (d_key_of o). split; [|now apply d_key_roundtrip].
+  cbn. now rewrite Hc.
 Qed.
 
 (* ====================== composite ====================== *)
@@ -346,7 +348,7 @@ Proof.
     + rewrite Hc. now left.
     + unfold update_parent. unfold status_only. rewrite Hd. cbn. rewrite Hc. now left.
     + rewrite Hc. now left.
-    + apply eqb_eq_s in Hwf. subst. now left.
+    + rewrite Hc. apply eqb_eq_s in Hwf. subst. now left.
   - (* child events *)
     cbn [candidates] in Hin. cbn [affects] in Ha. rewrite !andb_true_iff in Ha.
     destruct Ha as [[Hr Hc] Hm]. apply negb_true_iff in Hr.
@@ -369,14 +371,13 @@ Qed.
 
 (* soundness: every queued key is the key of an affected candidate *)
 Lemma sound c parents s ev k :
-  names_ok parents s ev = true ->
-  (s = SParent -> is_tombstone ev = false) ->
+  names_ok parents s ev = true -> event_wf ev = true ->
   In k (handle c parents s ev) ->
   exists p, In p (candidates parents s ev) /\ key_of p = k /\ affects c s ev p = true.
 Proof.
-  intros Hok Ht Hin. destruct s.
-  - specialize (Ht eq_refl). exists (ev_obj ev). split; [now left|].
-    destruct ev as [o|old cur|o|k' o]; cbn in *; try discriminate.
+  intros Hok Hwf Hin. destruct s.
+  - exists (ev_obj ev). split; [now left|].
+    destruct ev as [o|old cur|o|k' o]; cbn in *.
     + destruct (cares (e_cc c) o) eqn:C; [|contradiction]. destruct Hin as [<-|[]].
       rewrite eqb_refl_s. auto.
     + unfold update_parent in Hin. unfold status_only in Hin.
@@ -384,6 +385,8 @@ Proof.
       apply enqueue_obj_sound in Hin. destruct Hin as [-> C]. rewrite eqb_refl_s, C. auto.
     + destruct (cares (e_cc c) o) eqn:C; [|contradiction]. destruct Hin as [<-|[]].
       rewrite eqb_refl_s. auto.
+    + destruct (cares (e_cc c) o) eqn:C; [|contradiction]. destruct Hin as [<-|[]].
+      apply eqb_eq_s in Hwf. subst k'. rewrite eqb_refl_s. auto.
   - cbn [names_ok] in Hok. rewrite !andb_true_iff in Hok. destruct Hok as [[Hps Hns] Hrn].
     destruct (is_resync ev) eqn:Hrs; [rewrite (resync_nothing _ _ _ Hrs) in Hin; contradiction|].
     destruct (controller_of (ev_obj ev)) as [r|] eqn:Hcr.
@@ -412,19 +415,29 @@ Proof.
       unfold orphan_selected. unfold listed, parent_selects in Hf. exact Hf.
 Qed.
 
-(* (b) *)
-Lemma unmatched_never_queued c parents ev :
-  is_tombstone ev = false -> unmatched_parent_event c SParent ev = true ->
-  handle c parents SParent ev = [].
+(* (b): parent delete tombstones included *)
+Lemma enqueue_tomb_sound c k o q :
+  In q (enqueue_parent c (WTomb k o)) -> q = k /\ cares (e_cc c) o = true.
 Proof.
-  intros Ht Hu. cbn in Hu. apply negb_true_iff in Hu.
-  destruct ev as [o|old cur|o|k o]; cbn in *; try discriminate.
+  cbn. destruct (cares (e_cc c) o) eqn:E; cbn; [|tauto]. intros [<-|[]]. auto.
+Qed.
+
+Lemma unmatched_never_queued c parents ev :
+  unmatched_parent_event c SParent ev = true -> handle c parents SParent ev = [].
+Proof.
+  intros Hu. cbn in Hu. apply negb_true_iff in Hu.
+  destruct ev as [o|old cur|o|k o]; cbn in *.
   - now rewrite Hu.
   - unfold update_parent. destruct (_ && _); [reflexivity|]. cbn. now rewrite Hu.
   - now rewrite Hu.
+  - now rewrite Hu.
 Qed.
 
-(* ... but a delete tombstone bypasses the filter *)
+Lemma unmatched_tombstone_sound c k o :
+  cares (e_cc c) o = false -> on_parent_event c (EDeleteTombstone k o) = [].
+Proof. intros H. cbn. now rewrite H. Qed.
+
+(* the objects of the non-vacuity examples *)
 Definition cex_cfg : ecfg :=
   mkECfg (mkCfg "c" "ctl.example.com/v1" "Thing" "things" true true false
                 (SelReqs [mkReq "tier" OpIn ["a"]]) [] true false [] false false [] []) false.
@@ -432,14 +445,6 @@ Definition cex_parent : json :=
   JObj [("apiVersion", JStr "ctl.example.com/v1"); ("kind", JStr "Thing");
         ("metadata", JObj [("name", JStr "p"); ("namespace", JStr "ns"); ("uid", JStr "u1");
                            ("labels", JObj [("tier", JStr "b")])])].
-
-Lemma unmatched_tombstone_queued :
-  ~ (forall c parents ev, event_wf ev = true -> unmatched_parent_event c SParent ev = true ->
-       handle c parents SParent ev = []).
-Proof.
-  intros H. specialize (H cex_cfg [] (EDeleteTombstone "ns/p" cex_parent) eq_refl eq_refl).
-  vm_compute in H. discriminate.
-Qed.
 
 (* ====================== decorator ====================== *)
 Lemma d_enqueue_obj_sound c o k :
@@ -631,7 +636,7 @@ Proof.
     + rewrite Hc. now left.
     + unfold d_update_parent. unfold status_only. rewrite Hd. cbn. rewrite Hc. now left.
     + rewrite Hc. now left.
-    + now left.
+    + rewrite Hc. now left.
   - cbn [candidates] in Hin. cbn [d_affects] in Ha. rewrite !andb_true_iff in Ha.
     destruct Ha as [[Hr Hc] Hm]. apply negb_true_iff in Hr.
     destruct (controller_of (ev_obj ev)) as [r|] eqn:Hcr; [|discriminate].
@@ -659,18 +664,19 @@ Qed.
 
 Lemma d_sound c parents s ev k :
   names_ok parents s ev = true ->
-  (s = SParent -> is_tombstone ev = false) ->
   In k (d_handle c parents s ev) ->
   exists p, In p (candidates parents s ev) /\ d_key_of p = k /\ d_affects c s ev p = true.
 Proof.
-  intros Hok Ht Hin. destruct s.
-  - specialize (Ht eq_refl). exists (ev_obj ev). split; [now left|].
-    destruct ev as [o|old cur|o|k' o]; cbn in *; try discriminate.
+  intros Hok Hin. destruct s.
+  - exists (ev_obj ev). split; [now left|].
+    destruct ev as [o|old cur|o|k' o]; cbn in *.
     + destruct (d_cares c o) eqn:C; [|contradiction]. destruct Hin as [<-|[]].
       rewrite eqb_refl_s. auto.
     + unfold d_update_parent in Hin. unfold status_only in Hin.
       destruct (d_ignores_status c old && _) eqn:D; [contradiction|].
       apply d_enqueue_obj_sound in Hin. destruct Hin as [-> C]. rewrite eqb_refl_s, C. auto.
+    + destruct (d_cares c o) eqn:C; [|contradiction]. destruct Hin as [<-|[]].
+      rewrite eqb_refl_s. auto.
     + destruct (d_cares c o) eqn:C; [|contradiction]. destruct Hin as [<-|[]].
       rewrite eqb_refl_s. auto.
   - cbn [names_ok] in Hok. rewrite !andb_true_iff in Hok. destruct Hok as [[Hps Hns] Hrn].
@@ -685,27 +691,29 @@ Proof.
     + rewrite (d_orphan_nothing _ _ _ Hcr) in Hin. contradiction.
 Qed.
 
-Lemma d_unmatched_never_queued c parents ev :
-  is_tombstone ev = false -> d_unmatched_parent_event c SParent ev = true ->
-  d_handle c parents SParent ev = [].
+Lemma d_enqueue_tomb_sound c k o q :
+  In q (d_enqueue_parent c (WTomb k o)) -> q = d_key_of o /\ d_cares c o = true.
 Proof.
-  intros Ht Hu. cbn in Hu. apply negb_true_iff in Hu.
-  destruct ev as [o|old cur|o|k o]; cbn in *; try discriminate.
+  cbn. destruct (d_cares c o) eqn:E; cbn; [|tauto]. intros [<-|[]]. auto.
+Qed.
+
+Lemma d_unmatched_never_queued c parents ev :
+  d_unmatched_parent_event c SParent ev = true -> d_handle c parents SParent ev = [].
+Proof.
+  intros Hu. cbn in Hu. apply negb_true_iff in Hu.
+  destruct ev as [o|old cur|o|k o]; cbn in *.
   - now rewrite Hu.
   - unfold d_update_parent. destruct (_ && _); [reflexivity|]. cbn. now rewrite Hu.
   - now rewrite Hu.
+  - now rewrite Hu.
 Qed.
+
+Lemma d_unmatched_tombstone_sound c k o :
+  d_cares c o = false -> d_on_parent_event c (EDeleteTombstone k o) = [].
+Proof. intros H. cbn. now rewrite H. Qed.
 
 Definition d_cex_cfg : dcfg :=
   mkDCfg "d" [mkDP "ctl.example.com/v1" "Thing" "things" true (SelReqs [mkReq "tier" OpIn ["a"]]) sel_everything false].
-
-Lemma d_unmatched_tombstone_queued :
-  ~ (forall c parents ev, d_unmatched_parent_event c SParent ev = true ->
-       d_handle c parents SParent ev = []).
-Proof.
-  intros H. specialize (H d_cex_cfg [] (EDeleteTombstone "ns/p" cex_parent) eq_refl).
-  vm_compute in H. discriminate.
-Qed.
 
 (* ====================== related objects ====================== *)
 Lemma related_event_spec c a parents ev p :
